@@ -85,7 +85,7 @@ func main() {
 	p.loadSeconds = time.Since(start).Seconds()
 	to := *timeout
 	if to == 0 {
-		to = 10
+		to = 15
 		if *tier == "thorough" {
 			to = 60
 		}
